@@ -13,6 +13,7 @@ import (
 	"runtime"
 	"sort"
 	"strings"
+	"sync"
 	"sync/atomic"
 	"time"
 
@@ -205,4 +206,36 @@ func Register() {
 		}})
 	rig.Register(&rig.Spec{Prop: "C28", Level: "exploration", RaceFuncs: c28RaceFuncs,
 		Stages: []rig.Stage{{Name: "ledger", Fn: c28, Race: true, TimeoutQuick: 40 * time.Minute, TimeoutThorough: 8 * time.Hour}}})
+}
+
+// report forwards a violation to the rig, at most three witnesses per key and worker process, so that one recurring class
+// (e.g. a known finding) neither floods the event log nor ends the exploration early; every occurrence is counted.
+var (
+	reportMu     sync.Mutex
+	reportCounts = map[string]int{}
+)
+
+func report(c *rig.Ctx, key, what string, witness any) {
+	reportMu.Lock()
+	reportCounts[key]++
+	n := reportCounts[key]
+	reportMu.Unlock()
+	if n <= 3 {
+		c.Violation(key, what, witness)
+	}
+}
+
+// distinctViolationKeys is what the exploration loops look at to stop early.
+func distinctViolationKeys() int {
+	reportMu.Lock()
+	defer reportMu.Unlock()
+	return len(reportCounts)
+}
+
+func countReported(c *rig.Ctx, prop string) {
+	reportMu.Lock()
+	defer reportMu.Unlock()
+	for k, n := range reportCounts {
+		c.Count(prop+".violations_of_class:"+k, n)
+	}
 }
